@@ -7,7 +7,16 @@ import struct
 import tempfile
 import zlib
 
-from harness.lib import hx, zl, cz, cbool, clist
+from harness.lib import zl, cz, cbool, clist
+from harness.lib import hx as _hx1
+
+
+def hx(b):
+    """bytes -> Coq list Z; long strings are split so that no single string literal exceeds 4 kB"""
+    b = bytes(b)
+    if len(b) <= 4096:
+        return _hx1(b)
+    return '(' + ' ++ '.join(_hx1(b[i:i + 4096]) for i in range(0, len(b), 4096)) + ')'
 
 ID = 'C16'
 RULE = ('BAM files produced by the spec-level encoder (Python twin of Coq Model.C16.encode_file, agreement checked in '
@@ -89,7 +98,7 @@ def container_bytes(case, data):
 # ----------------------------------------------------------------------------- generator
 def _rec(rng, nrefs, name_len=None, n_cigar=None, l_seq=None, unmapped=None, tags=None, end10=False):
     if unmapped is None:
-        unmapped = nrefs == 0 or rng.random() < 0.2
+        unmapped = nrefs == 0 or rng.random() < 0.07
     if name_len is None:
         name_len = rng.choice([1, 2, 3, 4, 5, 7, 8, 11, 12, 30, 253, 254]) if rng.random() < 0.5 else rng.randint(1, 20)
     if n_cigar is None:
@@ -235,7 +244,7 @@ def generate(tier, seed):
     cases.append(_mk(rng, _refs(rng, 3), [_rec(rng, 3, unmapped=False, end10=True)]))
     # 4. random files
     for t in range(150 if not thorough else 1500):
-        nrefs = rng.choice([0, 1, 1, 2, 3, 3])
+        nrefs = rng.choice([0, 1, 1, 1, 2, 2, 2, 3, 3, 3, 3, 3])
         refs = _refs(rng, nrefs)
         nrec = rng.choice([1, 2, 3, 4, 5, 6, 8])
         recs = [_rec(rng, nrefs, end10=(rng.random() < 0.15)) for _ in range(nrec)]
@@ -408,7 +417,7 @@ def _oivs(x, n):
 def _brec(r):
     cig = clist(['(%s, %s)' % (cz(op), cz(l)) for op, l in r['cigar']], '(Z*Z)')
     if r.get('cigar_repeat', 1) > 1:
-        cig = '(concat (repeat %s (Z.to_nat %d)))' % (cig, r['cigar_repeat'])
+        cig = '(List.concat (List.repeat %s (Z.to_nat %d)))' % (cig, r['cigar_repeat'])
     return ('{| b_ref := %s; b_pos := %s; b_mapq := %s; b_bin := %s; b_flag := %s; b_name := %s; b_cigar := %s; '
             'b_seq := %s; b_qual := %s; b_nref := %s; b_npos := %s; b_tlen := %s; b_tags := %s |}' % (
                 cz(r['ref']), cz(r['pos']), cz(r['mapq']), cz(r['bin']), cz(r['flag']), hx(bytes.fromhex(r['name'])), cig,
@@ -524,14 +533,21 @@ def finding(case, o):
                 elif g != expected(r, case['refs'][-1][0].encode().hex()):
                     return False
         return True
+    def ivs_ok(got):
+        if not isinstance(got, list) or len(got) != len(recs):
+            return False
+        for g, r in zip(got, recs):
+            reflen = sum(l for op, l in _cigar(r) if op in (0, 2, 3, 7, 8))
+            chrom = None if not case['refs'] else case['refs'][r['ref'] if r['ref'] >= 0 else -1][0].encode().hex()
+            if g != [chrom, r['pos'], r['pos'] + reflen, r['name'], r['mapq'], b'-'.hex() if r['flag'] & 16 else b'+'.hex()]:
+                return False
+        return True
     allidx = list(range(len(recs)))
-    if case['refs']:
-        if not recs_ok(o['whole'], allidx):
-            return None
-    else:
-        # without references names[-1] raises for the whole column: mapped records cannot exist
-        if not recs_ok(o['whole'], allidx):
-            return None
+    if not recs_ok(o['whole'], allidx) or not ivs_ok(o['ivs']):
+        return None
+    # without references names[-1] raises, and alignment_to_interval raises as a whole
+    if not (ivs_ok(o['ivs2']) if case['refs'] else isinstance(o['ivs2'], str)):
+        return None
     for c in o['chunked']:
         if len(c) == 2 or not recs_ok(c[2], allidx):
             return None
